@@ -513,6 +513,8 @@ C04_TYPEARGS_PART = (G, "gosym_part", dict(name="c04_determines_type_arguments",
                                             "argument X of Pair<X,int>, Lib.Box<X>, Opt<X> (= X?), Lib.Seq<X> (= X*), Lib.Box<Pair<int,X>>, Pair<Lib.Seq<X>,string>, LocalBox<X> (= Lib.Box<X>), "
                                             "Lib.Box<X*>, or ONLY through a position of a structural type: string->X, X->int (map key), X[], X*3, [int, X], (uint->X)*, the base of an !enum / !flags (where the real validator refuses the "
                                             "target in that position nothing is asserted), written as step type / stream item / record field / closed alias (quick: two of the four placements per carrier)",
+                                            "the protocol may also use every generic of the family with primitive arguments in a step before (thorough: or after) the carrier, so that the target is reached only through a "
+                                            "second (an earlier) instantiation of the same generic",
                                             "closure oracle: reachability over the model as written (names before validation), following definitions' bodies and type arguments; type parameters "
                                             "and primitives are leaves",
                                             C04_ASSUME[1]],
